@@ -67,6 +67,7 @@ type Exec struct {
 
 	usedContracts map[string]bool
 	coverSeen     map[string]int
+	dryAborted    string // non-empty: the last loop dry run hit a subset error (its write set is unreliable)
 	trackedChans  map[string]types.Type // channel terms made for a local variable listed in the contract's tokens clause
 	usedRegex     map[string]bool
 	blocking      []blockingOp
@@ -489,13 +490,26 @@ func (ex *Exec) loopHeader(st *State, b *ssa.BasicBlock) bool {
 		ex.record(st, fmt.Sprintf("%s/inv-entry:%s:%s", ex.rootName, key, inv.label), "invariant", g, inv.src)
 	}
 	// write set by dry run
+	ex.dryAborted = ""
 	regs, cells := ex.collectWrites(st, b)
+	if ex.dryAborted != "" {
+		msg := ex.dryAborted
+		ex.dryAborted = ""
+		if st.dry {
+			panic(subsetErr{msg}) // nested loop inside an outer dry run: the outer exploration is cut short as well
+		}
+		ex.subsetFail(st, "the write set of loop "+key+" could not be determined: "+msg)
+		return true
+	}
 	for _, r := range regs {
 		st.havocRegion(r)
 	}
 	for _, c := range cells {
 		if v, ok := st.cells[c]; ok {
-			st.cells[c] = st.rehavoc(v)
+			st.strictHavoc = true
+			nv := st.rehavoc(v)
+			st.strictHavoc = false
+			st.cells[c] = nv
 			if st.writtenCells != nil {
 				st.writtenCells[c] = true
 			}
@@ -523,8 +537,14 @@ func (st *State) rehavoc(v Val) Val {
 		return st.freshVal("hv", v.Typ)
 	case KStruct, KSlice, KTuple:
 		return st.freshVal("hv", v.Typ)
+	case KFunc, KUnit:
+		return v
 	}
-	return v
+	if st.dry || !st.strictHavoc {
+		return v
+	}
+	// interior pointers, arrays, iterators: a loop that reassigns such a variable is outside the subset
+	panic(subsetErr{fmt.Sprintf("cannot havoc a value of kind %d that the loop writes", v.K)})
 }
 
 func (ex *Exec) sortOfTerm(t string) (string, bool) {
@@ -552,7 +572,9 @@ func (ex *Exec) collectWrites(st *State, b *ssa.BasicBlock) ([]string, []int) {
 	func() {
 		defer func() {
 			if r := recover(); r != nil {
-				if _, ok := r.(subsetErr); ok {
+				if se, ok := r.(subsetErr); ok {
+					// the exploration of the loop body was cut short: the write set may be incomplete
+					ex.dryAborted = se.msg
 					return
 				}
 				panic(r)
